@@ -119,8 +119,11 @@ def draw_samples(position, H, minimizer, n_samples, mirror_samples, napprox=0,
         transformation_mean = sam_position + fl.jac.adjoint(fl.val)
         # Note: This metric is equivalent to H.metric, except for the case of a
         # `VariableCovarianceGaussianEnergy` with `use_full_fisher = True`.
+        # Draw the prior part with the Hamiltonian's own prior sampling dtype
+        prior_dtype = H.prior_energy.get_transformation()[0]
+        prior_dtype = float if prior_dtype is None else prior_dtype
         met = SamplingEnabler(SandwichOperator.make(fl.jac, scale),
-                              ScalingOperator(fl.domain, 1., float),
+                              ScalingOperator(fl.domain, 1., prior_dtype),
                               H.iteration_controller)
     else:
         met = H(Linearization.make_var(sam_position, want_metric=True)).metric
